@@ -113,7 +113,7 @@ def spec_grid(spec: str):
 def exc_kind(e) -> str:
     name = type(e).__name__
     if name == 'ValueError':
-        return 'ERR unpack' if 'unpack' in str(e) else 'ERR value'
+        return 'ERR value'
     if name == 'ZeroDivisionError':
         return 'ERR zerodiv'
     if name == 'IndexError':
@@ -242,11 +242,13 @@ class Generated:
                             sims.append({
                                 'L': (s.code.L_x, s.code.L_y, s.code.L_z),
                                 'size': tuple(s.code.size), 'code': type(s.code).__name__,
-                                'rate': getattr(s, 'error_rate', None),
+                                'rates': ([s.error_rate] if hasattr(s, 'error_rate')
+                                          else [float(x) for x in s.error_rates]),
                                 'direction': tuple(s.error_model.direction),
                                 'deformation': getattr(s.error_model, '_deformation_name', None),
                                 'noise': type(s.error_model).__name__,
-                                'decoder': type(getattr(s, 'decoder', None)).__name__,
+                                'decoder': type(s.decoder if hasattr(s, 'decoder')
+                                                else s.decoders[0]).__name__,
                                 'kind': type(s).__name__,
                             })
                         self.back[n] = ('ok', b.label, b.method, sims)
@@ -307,7 +309,8 @@ def impl_readback(g: Generated):
             parts.append(head + f'{r.get("label")}|{r.get("method", {}).get("name")}|' + exc_kind(b[1]))
         else:
             _, label, method, sims = b
-            ss = ' '.join(f'{s["L"][0]}x{s["L"][1]}x{s["L"][2]}@{snap_grid(s["rate"], unit, tol)}' for s in sims)
+            ss = ' '.join(f'{s["L"][0]}x{s["L"][1]}x{s["L"][2]}@' +
+                          ','.join(snap_grid(v, unit, tol) for v in sorted(s["rates"])) for s in sims)
             parts.append(head + f'{label}|{method}|{len(sims)}:{ss}')
     return ' ;; '.join(parts)
 
@@ -666,10 +669,13 @@ def check_generate(case):
         _, blabel, bmethod, sims = b
         if blabel != label or bmethod != a['method']:
             return 'read-back', f'{name}: batch label/method {blabel}/{bmethod}'
-        got = sorted((s['size'], snap_grid(s['rate'], unit, tol)) for s in sims)
+        got = sorted((s['size'], snap_grid(v, unit, tol)) for s in sims for v in s['rates'])
+        kinds = {s['kind'] for s in sims}
+        if kinds != {'DirectSimulation' if a['method'] == 'direct' else 'SplittingSimulation'}:
+            return 'read-back', f'{name}: simulations of kind {sorted(kinds)} for method {a["method"]}'
         want = sorted((sz, fr(x)) for sz in want_sizes for x in rates)
         if got != want:
-            return 'read-back', f'{name}: {len(got)} simulations read back, {len(want)} requested ' \
+            return 'read-back', f'{name}: {len(got)} (size, rate) pairs read back, {len(want)} requested ' \
                                 f'(sizes {want_sizes} x {len(rates)} rates); first got {got[:3]}'
         fd = g.files[name]['ranges']['error_model']['parameters']
         for s in sims:
